@@ -238,6 +238,8 @@ def emit_module(classes: list[dict], postponed: bool, uid: int) -> tuple[str, Em
         "from typing import Annotated, Any, Literal, Mapping, NewType, Optional, Sequence, Union\n"
         "from pyoak.node import ASTNode\nfrom pyoak.origin import NO_ORIGIN, Origin\n\n"
         "class Color(enum.Enum):\n    RED = 'red'\n    GREEN = 'green'\n\n"
+        "class Prio(enum.IntEnum):\n    LOW = 1\n    HIGH = 2\n\n"
+        "class Line(int):\n    pass\n\n"
         f"@dataclass(frozen=True)\nclass NodeA_{uid}(ASTNode):\n    n: int = 0\n\n"
         f"@dataclass(frozen=True)\nclass NodeB_{uid}(ASTNode):\n    n: int = 0\n\n"
         f"@dataclass(frozen=True)\nclass NodeSub_{uid}(NodeA_{uid}):\n    m: int = 0\n\n"
